@@ -281,7 +281,9 @@ fn render_aligned_block_layout_nodes(
             continue;
         }
 
-        if index > 0 {
+        // Not `index > 0`: the nodes before this one may all have been skipped (a leading `;`),
+        // and a line break in front of the first printed node would only disappear on the next pass.
+        if !docs.is_empty() {
             let blank_lines = count_blank_lines_before_layout_node(root, &nodes[index])
                 .min(ctx.config.layout.max_blank_lines);
             docs.push(ir::hard_line());
